@@ -313,6 +313,15 @@ def comps(fv, d):
     return [getattr(fv, COMP[a]) for a in range(d)]
 
 
+def layered_array(shape, vary_axis, seed=None, tag=0, signed=False):
+    """Array that varies along one axis only (a layered medium): generic values along `vary_axis`, constant along
+    all the others."""
+    line = generic_array((shape[vary_axis],), seed, tag, signed)
+    sh = [1] * len(shape)
+    sh[vary_axis] = shape[vary_axis]
+    return np.broadcast_to(line.reshape(sh), shape).copy()
+
+
 def generic_face(mesh, seed=None, tag=0, signed=False):
     return face_from_arrays(mesh, [generic_array(s, seed, tag + 3 * a, signed)
                                    for a, s in enumerate(face_shapes(mesh))])
